@@ -35,7 +35,7 @@ def row(name, x):
 
 import sys
 lines = []
-for title, pred in (("Changes seeded by independent sub-agents (all 20 quick checks run against each)", lambda n: n.startswith("seeded_")),
+for title, pred in (("Changes seeded by independent sub-agents (run against each: the check of the targeted property, C01 and the checks named under also_run in its meta.json; all 20 checks for s01 - s03)", lambda n: n.startswith("seeded_")),
                     ("Reverse patches of the repairs (checks named in the patch header)", lambda n: n.startswith("revert_")),
                     ("Handcrafted mutants (checks named in the patch header)", lambda n: n.startswith("m"))):
     lines.append("\n**%s**\n" % title)
